@@ -206,6 +206,9 @@ func runOne(t *testing.T, sc scenario, ch *sched.Chooser) (res sched.Result) {
 							invs = append(invs, rec)
 							return nil, false, nil
 						case "F":
+							if cur != nil {
+								cur.Tags = append(cur.Tags, tag+"!scratch") // the function may scribble on its input: nothing of it may survive
+							}
 							rec.out = "<failed>"
 							seq++
 							rec.seq = seq
@@ -213,6 +216,9 @@ func runOne(t *testing.T, sc scenario, ch *sched.Chooser) (res sched.Result) {
 							return nil, false, errNo
 						case "R":
 							if attempts == 1 {
+								if cur != nil {
+									cur.Tags = append(cur.Tags, tag+"!scratch") // modified in place, then "please retry": the next attempt must start from the stored value
+								}
 								rec.out = "<retry>"
 								seq++
 								rec.seq = seq
@@ -408,7 +414,7 @@ func TestC07(t *testing.T) {
 	}
 	scs := scenarios()
 	rep.Bound = fmt.Sprintf("%d scenarios: backends {in-memory Consul-compatible store, etcd client over its in-process mock, gossip store on one detached node} × caller sets {2×1, 2×2, mixed append/decline/fail, fail-with-retry} 3×1 and 2×3 on an absent and on a pre-populated key, also with CAS retry budgets 1 and 2 (so that losing every attempt is within the preemption bound), bare and behind the prefix, metrics and multi(mirroring) wrappers; all schedules with <= %d preemptions over every mutex/atomic operation of the store implementations", len(scs), bound)
-	rep.Rule = "stateless DFS on the real clients; oracle: the final value holds exactly the tags of the calls that reported success (no lost, no phantom update), failing and declining calls change nothing, the committing invocations form a chain (each applied to the value left by the previous one; for the gossip store on an absent key — where first writes are merged by design — set equality is required instead), the mirror holds a value some successful call wrote; distinct_nontrivial = distinct (scenario, final value, per-call outcome, number of function invocations)"
+	rep.Rule = "stateless DFS on the real clients; oracle: the final value holds exactly the tags of the calls that reported success (no lost, no phantom update), failing and declining calls change nothing (also when the function scribbled on its input before failing or asking for a retry), the committing invocations form a chain (each applied to the value left by the previous one; for the gossip store on an absent key — where first writes are merged by design — set equality is required instead), the mirror holds a value some successful call wrote; distinct_nontrivial = distinct (scenario, final value, per-call outcome, number of function invocations)"
 	deadline := ev.Deadline(8 * time.Minute)
 	for _, sc := range scs {
 		x := &sched.Explorer{Bound: bound, Report: rep, Deadline: deadline, Scenario: sc.String(), Run: func(c *sched.Chooser) sched.Result { return runOne(t, sc, c) }}
